@@ -29,7 +29,7 @@ T = "http://opcfoundation.org/UA/2008/02/Types.xsd"
 
 def build_doc(rng):
     """returns (xml text, expectations)"""
-    n_enum = rng.choice([0, 1, 1, 2, 3])
+    n_enum = rng.choice([0, 1, 1, 2, 2, 3])
     out = ['<?xml version="1.0" encoding="utf-8"?>', '<UANodeSet xmlns="http://opcfoundation.org/UA/2011/03/UANodeSet.xsd">',
            '<NamespaceUris><Uri>urn:enum</Uri></NamespaceUris><Models><Model ModelUri="urn:enum" Version="1" PublicationDate="2020-01-01T00:00:00Z"/></Models><Aliases/>']
     enums = []
@@ -94,6 +94,28 @@ def build_doc(rng):
             expect[vid] = {"plain": d}
         out.append('<UAVariable NodeId="ns=1;i=%d" BrowseName="1:v%d" DataType="%s"><DisplayName>v%d</DisplayName><References><Reference ReferenceType="i=40">i=63</Reference></References>%s</UAVariable>'
                    % (vid, vid, dtxt, vid, val))
+    defined = [en for en in enums if en["kind"] != "none" and en["dict"]]
+    # the same integer under two different enumerations (the string and the name must come from the variable's own DataType)
+    if len(defined) >= 2 and rng.random() < 0.8:
+        a, b = rng.sample(defined, 2)
+        shared = [k for k in a["dict"] if k in b["dict"]]
+        if shared:
+            i = rng.choice(shared)
+            for en in (a, b, a):
+                vid = nid
+                nid += 1
+                expect[vid] = {"enum": en, "int": i}
+                out.append('<UAVariable NodeId="ns=1;i=%d" BrowseName="1:v%d" DataType="ns=1;i=%d"><DisplayName>v%d</DisplayName><References><Reference ReferenceType="i=40">i=63</Reference></References>'
+                           '<Value><Int32 xmlns="%s">%d</Int32></Value></UAVariable>' % (vid, vid, en["dt"], vid, T, i))
+    # a variable TYPE whose DataType is an enumeration and that has a default value: it is not a variable, its value stays an Int32
+    if defined and rng.random() < 0.5:
+        en = rng.choice(defined)
+        i = rng.choice(list(en["dict"]))
+        vid = nid
+        nid += 1
+        expect[vid] = {"plain": {"t": "Int32", "v": i}}
+        out.append('<UAVariableType NodeId="ns=1;i=%d" BrowseName="1:vt%d" DataType="ns=1;i=%d"><DisplayName>vt%d</DisplayName><References><Reference ReferenceType="i=45" IsForward="false">i=63</Reference></References>'
+                   '<Value><Int32 xmlns="%s">%d</Int32></Value></UAVariableType>' % (vid, vid, en["dt"], vid, T, i))
     out.append("</UANodeSet>")
     return "\n".join(out), expect, enums
 
